@@ -84,6 +84,10 @@ class PurityHooks(Hooks):
                        '%s changed caller-owned %s (%s, store id %s) although the call is not documented as in-place on it'
                        % (fn, type(it.store[k]).__name__, role, k), i)
         self.snap = new
+        if out.policy_changed:
+            # process-wide state is shared by every caller: a call that leaves it changed makes later, unrelated calls answer differently
+            it.violate('C10.snapshot', {'fn': fn, 'arg': 'process-wide:' + out.policy_changed.replace(' ', '-'), 'kind': 'global'},
+                       '%s left the process-wide %s changed (%s)' % (fn, out.policy_changed, 'call refused' if not out.ok else 'call succeeded'), i)
         if getattr(self, 'pending_fresh', None) is not None:
             self._judge_fresh(it, i, ev, out)
         # seeded / deterministic calls never touch the global random state
@@ -323,6 +327,11 @@ class PurityScenario(Scenario):
         add('array', 'IMGI', recipe={'kind': 'integers', 'shape': 'S1', 'lo': 0, 'hi': 4000, 'seed': sd(), 'dtype': rng.choice(['int32', 'int64', 'uint16'])})
         add('array', 'IMGF', recipe={'kind': 'uniform', 'shape': 'S1', 'lo': 0.0, 'hi': 300.0, 'seed': sd(), 'dtype': 'float32'})
         add('transposed_view', 'IMGT', a=['@IMG'])
+        # degenerate but legal data: a frame without any signal, a map that sums to zero, an empty mask -- the inputs on which
+        # divisions by a total, normalisations and fits take their error paths
+        add('array', 'IMGZ', recipe={'kind': 'zeros', 'shape': 'S1'})
+        add('array', 'OZS', recipe={'kind': 'ramp', 'shape': 'S0', 'a': 1e-7, 'b': -2e-7})
+        add('array', 'MZ', recipe={'kind': 'zeros', 'shape': 'S0'})
         add('array', 'MI', recipe={'kind': 'disk', 'shape': 'S0', 'radius': rad, 'dtype': rng.choice(['int64', 'bool', 'uint8'])})
         add('asfortran', 'OF', a=['@O'])
         add('array', 'MODES', recipe={'kind': 'list', 'values': [1, 2, 3, 4], 'dtype': 'int64'})
@@ -331,6 +340,8 @@ class PurityScenario(Scenario):
         add('array', 'WVQ', recipe={'kind': 'list', 'values': [455.0, 512.5, 590.0, 640.0]})
         add('array', 'WVC', recipe={'kind': 'list', 'values': [460.0, 500.0, 540.0, 580.0]})
         add('array', 'WVM', recipe={'kind': 'list', 'values': [500e-9, 550e-9, 600e-9]})
+        add('array', 'RHO', recipe={'kind': 'uniform', 'shape': 'S0', 'lo': 0.0, 'hi': 1.3, 'seed': sd()})        # caller-supplied polar grid
+        add('array', 'THETA', recipe={'kind': 'uniform', 'shape': 'S0', 'lo': -3.1, 'hi': 3.1, 'seed': sd()})
         add('Pupil', 'P0', k={'amplitude': '@A', 'opd': '@O', 'mask': '@M', 'pixelscale': ph['dx'], 'focal_length': ph['f']})
         add('Pupil', 'P1', k={'amplitude': '@A', 'opd': '@O', 'mask': '@MS', 'pixelscale': ph['dx'], 'focal_length': ph['f']})
         add('Pupil', 'P2', k={'amplitude': '@A', 'opd': '@O', 'pixelscale': ph['dx'], 'focal_length': ph['f']})
@@ -588,7 +599,13 @@ class PurityScenario(Scenario):
             # derived spectra
             if rng.random() < 0.5:
                 sp = nid('sp')
-                out.append(E(rng.choice(['s*', 's+']), ['@SP1', rng.choice([1.0, 0.0, 2.0])], id=sp))
+                how_ = rng.choice(['op', 'op', 'material', 'path'])
+                if how_ == 'op':
+                    out.append(E(rng.choice(['s*', 's+']), ['@SP1', rng.choice([1.0, 0.0, 2.0])], id=sp))
+                elif how_ == 'material':
+                    out.append(E('attr', ['@MAT', rng.choice(['transmission', 'emission'])], id=sp))
+                else:
+                    out.append(E('path_transmission', [rng.choice([['@MAT'], ['@SP1'], ['@SP1', 1.0]])], id=sp))
                 out.append(E('Spectrum.crop', ['@' + sp, 450.0, 550.0], inplace=['@' + sp]))
                 out.append(E('Spectrum.to', ['@' + sp, 'um'], inplace=['@' + sp]))
                 out.append(E('Spectrum.integrate', ['@SP1']))
